@@ -99,6 +99,7 @@ func cloneContext(src *ReceiveContext) *ReceiveContext {
 	dst.sender = src.sender
 	dst.self = src.self
 	dst.response = src.response
+	dst.responseClosed = src.responseClosed
 	dst.requestID = src.requestID
 	dst.requestReplyTo = src.requestReplyTo
 	dst.err = src.err
